@@ -13,7 +13,8 @@ ID = "C10"
 TECHNIQUE = "property-based testing (Hypothesis), metamorphic relation: re-expressing inputs in another unit of the same dimension leaves every calculated value physically unchanged"
 LEVEL_TEXT = ("generated systems; every quantity-valued input re-expressed (one at a time and all at once) in another unit "
               "of its family, including exact-hour durations at the ceil/floor sites; all calculated attributes of the "
-              "two fresh builds compared")
+              "two fresh builds compared; the same re-expression applied to the live model (singly or in one update next "
+              "to a real change) compared with a fresh build")
 LEVEL_NOTE = "trusts pint to convert the harness' re-expressed magnitudes (same library as the code under test)"
 RULE = ("Hypothesis draws a system spec, a mode (one input | all inputs) and for each chosen quantity input another unit "
         "of its family (B/kB/MB/GB/TB; ms/s/min/h/day/year; mW/W/kW; g/kg/t; g/kWh,kg/kWh,kg/MWh; kWh/GB,Wh/MB; W/TB,"
